@@ -339,13 +339,36 @@ impl Check for C12 {
         let mut rng = Rng::derive("c12-interleave", ctx.seed, idx as u64);
         interleave(progs, &mut rng, &mut r, &first);
         // (e) lifetimes: the same programs after other interpreters lived, failed inside
-        // built-ins and died on this thread
+        // built-ins and died on the same thread — once on this thread (which has already run
+        // the programs) and once on a fresh thread (where the predecessors come first, so
+        // that per-thread state is primed by them and not by the programs themselves)
         {
-            let mut keep_alive: Vec<Stepper> = Vec::new();
-            for round in 0..3 {
-                let ran = run_hostile_predecessors(round + idx, &mut keep_alive);
+            let mut rounds: Vec<(String, usize, Vec<String>)> = Vec::new();
+            {
+                let mut keep_alive: Vec<Stepper> = Vec::new();
+                for round in 0..2 {
+                    let ran = run_hostile_predecessors(round + idx, &mut keep_alive);
+                    rounds.push((format!("same thread, round {}", round), ran, unit_traces(progs)));
+                }
+            }
+            let owned: Vec<(String, String)> = progs.to_vec();
+            let fresh = std::thread::Builder::new().stack_size(64 << 20).spawn(move || {
+                let mut out = Vec::new();
+                let mut keep_alive: Vec<Stepper> = Vec::new();
+                for round in 0..2 {
+                    let ran = run_hostile_predecessors(round + 7, &mut keep_alive);
+                    out.push((format!("fresh thread, round {}", round), ran, unit_traces(&owned)));
+                }
+                out
+            });
+            match fresh.map(|h| h.join()) {
+                Ok(Ok(v)) => rounds.extend(v),
+                _ => {
+                    r.violate("thread|panic".to_string(), "the thread running hostile predecessors and then the programs panicked".to_string(), json!({"id": "thread"}));
+                }
+            }
+            for (label, ran, after) in rounds {
                 r.stat("hostile_predecessor_runs", ran as i64);
-                let after = unit_traces(progs);
                 for (i, (a, b)) in first.iter().zip(after.iter()).enumerate() {
                     r.evaluations += 1;
                     r.nontrivial += 1;
@@ -353,7 +376,7 @@ impl Check for C12 {
                     if a != b {
                         r.violate(
                             format!("lifetime|{}", progs[i].0),
-                            format!("{}: trace differs after {} other interpreters failed inside built-ins and were dropped on the same thread (round {}): {}", progs[i].0, ran, round, truncate(&solo(&progs[i].1, None), 200)),
+                            format!("{}: trace differs after {} other interpreters failed inside built-ins and were dropped on the same thread ({}): {}", progs[i].0, ran, label, truncate(&solo(&progs[i].1, None), 200)),
                             json!({"id": progs[i].0}),
                         );
                     }
